@@ -174,12 +174,30 @@ func propC18(t *rapid.T) {
 		comp := rapid.SampledFrom([]string{"like", "ilike", "ilike"}).Draw(t, "comp")
 		inverse := rapid.IntRange(0, 5).Draw(t, "inverse") == 0
 		tab := hx.Table{Cols: []hx.Col{{Name: "s", Kind: hx.KString, S: cells}, {Name: "e", Kind: hx.KEnum, S: cells}, {Name: "id", Kind: hx.KInt, I: hx.Iota(n)}}}
+		// the enum column: values derived from the data, or declared after 190-220 unused values so that the values in
+		// use get high internal codes (the enum matcher works on a 256-bit set of value codes)
+		fillers := 0
+		if rapid.IntRange(0, 4).Draw(t, "highcodes") == 0 {
+			fillers = rapid.IntRange(190, 220).Draw(t, "fillers")
+			var decl []string
+			for i := 0; i < fillers; i++ {
+				decl = append(decl, fmt.Sprintf("\x02unused-%03d", i))
+			}
+			seen := map[string]bool{}
+			for _, p := range cells {
+				if p != nil && !seen[*p] {
+					seen[*p] = true
+					decl = append(decl, *p)
+				}
+			}
+			tab.Cols[1].Enum = decl
+		}
 		desc := func() string {
 			cs := make([]string, n)
 			for i, p := range cells {
 				cs[i] = ptrStr(p)
 			}
-			return fmt.Sprintf("cells %s\n%s pattern %q (%+q) inverse=%v", strings.Join(cs, " "), comp, pattern, pattern, inverse)
+			return fmt.Sprintf("cells %s\n%s pattern %q (%+q) inverse=%v unused enum values declared first: %d", strings.Join(cs, " "), comp, pattern, pattern, inverse, fillers)
 		}
 		qf := hx.Build(tab)
 		if qf.Err != nil {
